@@ -120,18 +120,75 @@ def eval_concrete(run, cond):
     raise ValueError(k)
 
 def concretize(run, model, seed_env=None):
-    """full input assignment from a solver model (inputs missing from the model get their lower bound)"""
+    """full input assignment from a solver model; inputs that were refined into digits are rebuilt from the
+    digit values (variables absent from the model are unconstrained there: lower bound is used)"""
     env = {}
+    ctx = run.ctx
+    def val(v):
+        lo, hi = ctx.bounds[v]
+        x = model.get(v) if model else None
+        if x is None: x = lo if lo > 0 or hi < 0 else 0
+        return min(max(x, lo), hi)
     for name, (layout, limbs, p) in run.inputs.items():
         for x in limbs:
             if x.is_const(): continue
             (m, c), = x.t.items(); v = m[0]
-            lo, hi = run.ctx.bounds[v]
-            env[v] = min(max(model.get(v, lo), lo), hi) if model else lo
+            r = ctx.resolve(x)
+            env[v] = r.eval({u: val(u) for u in r.vars()})
     return env
 
+def encoder_selftest(run, pr, roots, rebuild, model, timeout_s):
+    """rebuild(env) -> (run2, goals2, outs2) in concrete mode.  Vectors: the vacuity model, and its neighbours
+    pushed to the bounds where the assumptions still hold."""
+    import random
+    ctx = run.ctx
+    vectors = []
+    base = concretize(run, model)
+    vectors.append(("model", base))
+    rnd = random.Random(int(os.environ.get("VERIF_SEED", "0") or 0) + 12345)
+    for tag in ("max", "rand"):
+        env = {}
+        for name, (layout, limbs, p) in run.inputs.items():
+            for x in limbs:
+                if x.is_const(): continue
+                (m, c), = x.t.items(); v = m[0]
+                lo, hi = ctx.bounds[v] if v in ctx.bounds else (0, 0)
+                env[v] = hi if tag == "max" else rnd.randint(lo, hi)
+        ok = True
+        for a in ctx.assume:
+            try:
+                if not _eval_cond_env(a, env): ok = False
+            except KeyError: ok = False
+        if ok: vectors.append((tag, env))
+    res = dict(ok=True, vectors=[])
+    for tag, env in vectors:
+        r2, g2, o2 = rebuild(env)
+        outs = [x.cval() for x in o2]
+        pins = []
+        for v, val in env.items(): pins.append(eq(Poly.var(v), val))
+        diff = None
+        for sym, cv in zip(roots, outs):
+            c = ne(sym, cv); diff = c if diff is None else c_or(diff, c)
+        v1 = pr.check(Cond("const", True), extra=pins, timeout_s=timeout_s, split=False, pin_env=env)[0]
+        v2 = pr.check(diff, extra=pins, timeout_s=timeout_s, split=False, pin_env=env)[0] if diff is not None else "unsat"
+        res["vectors"].append(dict(vector=tag, admits_execution=v1, forces_outputs=v2))
+        if v1 != "sat" or v2 != "unsat":
+            res["ok"] = False; res["why"] = "vector %s: admits=%s forces_outputs=%s" % (tag, v1, v2)
+    return res
+
+def _eval_cond_env(c, env):
+    k = c.k
+    if k == "const": return c.a[0]
+    if k == "not": return not _eval_cond_env(c.a[0], env)
+    if k == "and": return _eval_cond_env(c.a[0], env) and _eval_cond_env(c.a[1], env)
+    if k == "or": return _eval_cond_env(c.a[0], env) or _eval_cond_env(c.a[1], env)
+    if k == "cmp":
+        v = (c.a[1] - c.a[2]).eval(env)
+        return {"eq": v == 0, "ne": v != 0, "lt": v < 0, "le": v <= 0, "gt": v > 0, "ge": v >= 0}[c.a[0]]
+    raise KeyError(k)
+
 def discharge(rep, run, name, goals, roots, config, fn, bounds_note, timeout_s=60, solvers_also=(), replay=None,
-              lemma_timeout=10, assumptions=()):
+              lemma_timeout=10, assumptions=(), selftest=None):
     """goals: list of (goal_name, violated_cond).  Runs auto zero-lemmas, vacuity witness, each goal.
     replay: callable(model_env) -> (reproduced: bool, detail) for sat models (concrete re-execution)."""
     t0 = time.time()
@@ -149,6 +206,12 @@ def discharge(rep, run, name, goals, roots, config, fn, bounds_note, timeout_s=6
         rec["vacuity_witness"] = vac[0]
         status = "ok"
         if vac[0] != "sat": status = "inconclusive"; rec["why"] = "path/assumption constraints not shown satisfiable: " + vac[0]
+        # encoder self-test (translator validation, DESIGN 5.2): the constraint system must admit the concrete
+        # execution of sampled input vectors and force exactly the concretely computed outputs
+        if selftest is not None and status == "ok":
+            st = encoder_selftest(run, pr, roots, selftest, vac[1], timeout_s)
+            rec["encoder_selftest"] = st
+            if not st["ok"]: status = "inconclusive"; rec["why"] = "encoder self-test failed: " + st.get("why", "")
         for gname, viol in goals:
             v, model, dt, info = pr.check(viol, timeout_s=timeout_s, also=solvers_also)
             g = dict(goal=gname, verdict=v, solver_s=round(dt, 3), **info)
